@@ -38,7 +38,11 @@ NT_RULE = ('case kinds: model (units x 1-4 phases x 2-40 Nasa/Nasa9/Shomate spec
            'options; distinct = distinct canonical JSON of the spec')
 REQUIRED_ORACLES = ['Y1', 'Y2', 'Y3', 'Y4', 'Y5', 'Y6', 'YH']
 REQUIRED_CLASSES = ['kind:model', 'kind:history', 'kind:reactor',
-                    'populate:construct', 'populate:organize', 'populate:incremental',
+                    'populate:construct', 'populate:organize', 'populate:incremental', 'populate:moved',
+                    'move:add_first', 'move:remove_first', 'move:surface_reactant_computed_A',
+                    'move:gas_sticking_species', 'move:by_remove', 'move:by_pop', 'move:by_clear',
+                    'hist:move_add_first', 'hist:move_remove_first', 'rxn:bulk_reactant_computed_A',
+                    'wrap:hyphen_name',
                     'species:Nasa', 'species:Nasa9', 'species:Shomate', 'rxn:adsorption', 'rxn:surface',
                     'ts:bep', 'ts:species', 'ts:none', 'ids:user', 'ids:auto', 'interactions:some',
                     'units:none', 'units:dict', 'units:object', 'motz:on', 'motz:off',
@@ -196,6 +200,39 @@ def directed(tier):
                                          act_energy='kcal/mol')))                   # time unit
     D.append(_base_model(11, bep_unnamed=True))                                          # BEP without a name
     D.append(_base_model(12, bep_unnamed=True, first='yaml'))
+    # species moved between coexisting phase objects before writing (both orders, every way of removing)
+    def moved(seed, ops, init_delta, scratch, moves, **over):
+        m = _base_model(seed, populate='moved', **over)
+        init = {p['name']: list(p['species']) for p in m['phases']}
+        for sc in scratch:
+            init[sc['name']] = []
+        for n, src, dst in init_delta:
+            init[dst].remove(n)
+            init[src].append(n)
+        m.update(init_phases=init, scratch=scratch, ops=ops,
+                 moves=[{'species': n, 'from': a, 'to': b, 'order': o, 'removal': r, 'role': role}
+                        for n, a, b, o, r, role in moves])
+        return m
+    og = {'type': 'IdealGas', 'name': 'old_IdealGas'}
+    oi = {'type': 'InteractingInterface', 'name': 'old_InteractingInterface'}
+    D.append(moved(20, [['append', 'terrace', 'N(T)'], ['remove', 'step', 'N(T)'],
+                        ['extend', 'gas', ['H2']], ['pop', 'old_IdealGas', 0],
+                        ['remove', 'old_InteractingInterface', 'H(T)'], ['append', 'terrace', 'H(T)']],
+                   [('N(T)', 'step', 'terrace'), ('H2', 'old_IdealGas', 'gas'),
+                    ('H(T)', 'old_InteractingInterface', 'terrace')], [og, oi],
+                   [('N(T)', 'step', 'terrace', 'add_first', 'remove', 'surface_reactant_computed_A'),
+                    ('H2', 'old_IdealGas', 'gas', 'add_first', 'pop', 'gas_sticking_species'),
+                    ('H(T)', 'old_InteractingInterface', 'terrace', 'remove_first', 'remove',
+                     'surface_reactant_computed_A')]))
+    D.append(moved(21, [['append', 'gas', 'N2'], ['clear', 'old_IdealGas'],
+                        ['extend', 'step', ['N(S)']], ['pop', 'terrace', 4],
+                        ['clear', 'old_InteractingInterface'], ['extend', 'terrace', ['NH(T)']]],
+                   [('N2', 'old_IdealGas', 'gas'), ('N(S)', 'terrace', 'step'),
+                    ('NH(T)', 'old_InteractingInterface', 'terrace')], [og, oi],
+                   [('N2', 'old_IdealGas', 'gas', 'add_first', 'clear', 'gas_sticking_species'),
+                    ('N(S)', 'terrace', 'step', 'add_first', 'pop', 'surface_reactant_computed_A'),
+                    ('NH(T)', 'old_InteractingInterface', 'terrace', 'remove_first', 'clear',
+                     'surface_reactant_computed_A')], first='yaml'))
     # single-phase models
     rng = random.Random('C07-directed-single')
     D.append(G.gen_model(rng, tier, layout='g', n_species=3, populate='construct', yaml_keyword_name=False))
@@ -221,6 +258,17 @@ def directed(tier):
     D.append(H([I(0, [0, 1]), I(1, [2]), I(2, [])], 3, [['append', 2, 3], ['extend', 1, [0, 4]],
                                                        ['remove', 0, 1], ['pop', 1, 2], ['clear', 0]]))
     D.append(H([I(0, [0])], 1, [['append', 0, 1], ['extend', 0, [2, 3]], ['pop', 0, 0], ['remove', 0, 3]]))
+    # long species lists with hyphenated names: the special names at every position of a wrapped list
+    fill = G.WRAP_FILLERS[:18]
+    special = ['cis-HCOOH(S)', 'trans-HCOOH(S)', 'CO-OH(S)']
+    for k in range(len(fill) + 1):
+        names = fill[:k] + special + fill[k:]
+        t = ['InteractingInterface', 'IdealGas', 'StoichSolid'][k % 3]
+        D.append({'kind': 'history', 'flavour': 'wrap', 'pool': len(names), 'names': names,
+                  'phases': [{'type': t, 'name': 'ph0', 'init': list(range(len(names)))},
+                             {'type': 'InteractingInterface', 'name': 'ph1', 'init': None}],
+                  'n_start': 2, 'ops': [['append', 1, k % len(names)], ['pop', 0, k % len(names)]],
+                  'moves': {'add_first': 1, 'remove_first': 0}, 'units': U, 'emit': True})
     # ---- reactor option sets
     Un = dict(G.DEFAULT_UNITS, pressure='atm', mass='g')
     Rr = lambda options, units=Un, phases='empty', generic=None: {
@@ -433,6 +481,20 @@ def _check_live(ctx, live, model, elements_of, after, operated, info):
             want |= set(elements_of[n])
         if not ctx.check('YH', el == want, m2, got=sorted(el), want=sorted(want)):
             return False
+    # back references: a species points at the phase that added it last, as long as that phase lists it
+    objs, owner = info.get('_objs'), info.get('_owner')
+    if objs is not None:
+        for name, key in owner.items():
+            if key not in live or name not in model[key] or name in info.setdefault('_reported', set()):
+                continue
+            listed_by = [k for k in live if name in model[k]]
+            m3 = {'file': 'history', 'rule': 'Y4', 'entity': 'species', 'field': 'phase_backref',
+                  'class': type(live[key]).__name__, 'after': after, 'listed_by_one_phase': len(listed_by) == 1}
+            got = getattr(objs[name], 'phase', None)
+            # (recorded, but the case goes on: the files written afterwards show the consequence)
+            if not ctx.check('YH', got is live[key], m3, species=name, got=getattr(got, 'name', repr(got)),
+                             want=live[key].name):
+                info['_reported'].add(name)          # once per species and case
     return True
 
 
@@ -446,10 +508,13 @@ def _apply_op(ctx, op, live, model, obj_of, info):
     if kind == 'append':
         r = ctx.call('YH', mech, ph.append_species, obj_of(op[2]))
         model[key].append(obj_of(op[2]).name)
+        info.setdefault('_owner', {})[obj_of(op[2]).name] = key
     elif kind == 'extend':
         objs = [obj_of(i) for i in op[2]]
         r = ctx.call('YH', mech, ph.extend_species, objs)
         model[key].extend(o.name for o in objs)
+        for o in objs:
+            info.setdefault('_owner', {})[o.name] = key
     elif kind == 'remove':
         nm = obj_of(op[2]).name
         r = ctx.call('YH', mech, ph.remove_species, nm)
@@ -465,22 +530,27 @@ def _apply_op(ctx, op, live, model, obj_of, info):
     return r is not core.NOVALUE
 
 
-def _pool_species(n):
-    """light-weight species objects sp0..sp{n-1}"""
+def _pool_species(n, names=None):
+    """light-weight species objects sp0..sp{n-1} (or with the given names)"""
     rng = random.Random('C07-pool')
     els = [{'H': 2}, {'N': 2}, {'C': 1, 'O': 1}, {'Pt': 1}, {'O': 2}, {'C': 1, 'H': 4}, {'Ni': 1, 'H': 1},
            {'N': 1, 'H': 3}, {'Cu': 1}, {'Fe': 1, 'O': 1}]
     out = []
     for k in range(n):
-        out.append(G.build_species(G.gen_species_spec(rng, 'sp%d' % k, 'Nasa', 'S', els[k % len(els)], 1)))
+        nm = names[k] if names else 'sp%d' % k
+        out.append(G.build_species(G.gen_species_spec(rng, nm, 'Nasa', 'S', els[k % len(els)], 1)))
     return out
 
 
 def _run_history(spec, ctx):
-    pool = _pool_species(spec['pool'])
+    pool = _pool_species(spec['pool'], spec.get('names'))
     elements_of = {o.name: dict(o.elements) for o in pool}
     obj_of = lambda i: pool[i]
-    live, model, info = {}, {}, {}
+    live, model = {}, {}
+    info = {'_objs': {o.name: o for o in pool}, '_owner': {}}
+    for how, n in (spec.get('moves') or {}).items():
+        if n:
+            ctx.cls('hist:move_' + how)
     if len(spec['phases']) >= 2 and len(spec['ops']) >= 3:
         ctx.nontrivial()
 
@@ -506,6 +576,8 @@ def _run_history(spec, ctx):
         live[k] = ph
         model[k] = [pool[i].name for i in (p['init'] or [])]
         info[k] = {'default': p['init'] is None}
+        for n in model[k]:
+            info['_owner'][n] = k
         return True
 
     for k in range(spec['n_start']):
@@ -554,6 +626,9 @@ def _emit_phases_only(spec, ctx, live, model, elements_of):
                 ctx.fail('Y4', dict(base, field='name', **{'class': type(live[k]).__name__}))
                 continue
             m = dict(base, **{'class': type(live[k]).__name__})
+            if len(' '.join(model[k])) >= 60 and any('-' in n for n in model[k]):
+                ctx.cls('wrap:hyphen_name')
+                m['wrapped_hyphen_names'] = True
             ctx.check('Y4', ph['species'] == model[k], dict(m, field='species'), got=ph['species'], want=model[k])
             want_el = set()
             for n in model[k]:
@@ -600,9 +675,11 @@ def _build(spec, ctx, check_history=True):
             return None
         M.phases = list(phs)
     else:
+        init = spec.get('init_phases') if mode == 'moved' else None
         for p in spec['phases']:
             cls = G.phase_class(p['type'])
-            kw = G.phase_kwargs(spec, p, M, by_name, with_species=(mode == 'construct'))
+            pp = dict(p, species=init[p['name']]) if init is not None else p
+            kw = G.phase_kwargs(spec, pp, M, by_name, with_species=(mode in ('construct', 'moved')))
             mech = {'file': 'history', 'rule': 'Y4', 'entity': 'phase', 'field': 'species', 'class': p['type'],
                     'after': 'new', 'default_args': mode != 'construct', 'other_phase': False}
             ph = ctx.call('YH', mech, cls, **kw)
@@ -613,8 +690,37 @@ def _build(spec, ctx, check_history=True):
     live = {p['name']: ph for p, ph in zip(spec['phases'], M.phases)}
     elements_of = {s['name']: s['elements'] for s in spec['species']}
     info = {p['name']: {'default': mode == 'incremental'} for p in spec['phases']}
-    if mode == 'incremental':
-        model = {p['name']: [] for p in spec['phases']}
+    info['_objs'] = dict(M.sp)
+    info['_owner'] = {}
+    if mode == 'moved':
+        # scratch phases coexist with the model's phases but are not written
+        for sc in spec['scratch']:
+            kw = {'name': sc['name'], 'species': [M.sp[n] for n in init[sc['name']]]}
+            if sc['type'] == 'StoichSolid':
+                kw['density'] = 1.0
+            if sc['type'] == 'InteractingInterface':
+                kw['site_density'] = 1.0e-12
+                kw['phases'] = []
+            mech = {'file': 'history', 'rule': 'Y4', 'entity': 'phase', 'field': 'species', 'class': sc['type'],
+                    'after': 'new', 'default_args': False, 'other_phase': False}
+            ph = ctx.call('YH', mech, G.phase_class(sc['type']), **kw)
+            if ph is core.NOVALUE:
+                return None
+            live[sc['name']] = ph
+            info[sc['name']] = {'default': False}
+        model = {k: list(v) for k, v in init.items()}
+        for k, v in model.items():
+            for n in v:
+                info['_owner'][n] = k
+        for mv in spec['moves']:
+            ctx.cls('move:' + mv['order'], 'move:' + mv['role'], 'move:by_' + mv['removal'])
+    elif mode != 'incremental':
+        for p in spec['phases']:
+            for n in p['species']:
+                info['_owner'][n] = p['name']
+    if mode in ('incremental', 'moved'):
+        if mode == 'incremental':
+            model = {p['name']: [] for p in spec['phases']}
         if check_history and not _check_live(ctx, live, model, elements_of, 'new', None, info):
             return None
         for op in spec['ops']:
@@ -629,11 +735,15 @@ def _build(spec, ctx, check_history=True):
                 ctx.cls('hist:coexisting>=2')
             if check_history and not _check_live(ctx, live, model, elements_of, op[0], op[1], info):
                 return None
-        ctx.cls('hist:default_args')
+        if mode == 'incremental':
+            ctx.cls('hist:default_args')
         tracked = model
     # final state against the spec (all modes)
     model = {p['name']: list(p['species']) for p in spec['phases']}
-    if mode == 'incremental':
+    if mode == 'moved':
+        for sc in spec['scratch']:
+            model[sc['name']] = list(tracked[sc['name']])
+    if mode in ('incremental', 'moved'):
         # order follows the operation sequence
         for k in model:
             if sorted(tracked[k]) != sorted(model[k]):
@@ -1727,8 +1837,11 @@ def _classes(spec, ctx):
             'motz:on' if spec['motz_wise'] else 'motz:off', 'first:' + spec['first'])
     for s in spec['species']:
         ctx.cls('species:' + s['type'])
+    bulk = {n for p in spec['phases'] if p['type'] == 'StoichSolid' for n in p['species']}
     for r in spec['reactions']:
         ctx.cls('rxn:adsorption' if r['is_adsorption'] else 'rxn:surface')
+        if not r['is_adsorption'] and r['A'] is None and any(n in bulk for n, _ in r['reactants']):
+            ctx.cls('rxn:bulk_reactant_computed_A')
         ctx.cls('ts:none' if r['ts'] is None else ('ts:bep' if 'bep' in r['ts'] else 'ts:species'))
     if (spec['beps'] or spec['interactions']) and len(spec['phases']) >= 2:
         ctx.nontrivial()
